@@ -226,7 +226,6 @@ var c07RawPanics = map[string]string{
 var c07Asserts = map[string]string{
 	"goose.Ctx.arrayType|*go/types.Info.TypeOf(ctx.info,e).(*Array)":          "go/types: the type of an *ast.ArrayType expression with a length is *types.Array (the branch tested e.Len != nil)",
 	"goose.Ctx.mapType|*go/types.Info.TypeOf(ctx.info,e).Underlying().(*Map)": "go/types: the type of an *ast.MapType expression is a map type",
-	"goose.Ctx.coqRecurFunc|ctx.info.Uses[e]#0.(*Func)":                       "callers pass the identifier of a function (identExpr tested *types.Func) or of a method selected on a typed receiver",
 	"goose.Ctx.packageMethod|f.X.(*Ident)":                                    "getType failed for f.X, so f.X denotes a package; a package qualifier is an identifier",
 }
 
@@ -236,6 +235,23 @@ type guardedReason struct{ Need, Why string }
 
 var c07Indices = map[string]guardedReason{
 	"goose.Ctx.callExpr|s.Args[0]": {".(*Signature)#1 == true", "Go typing: inside the loop over the callee signature's parameters a non-variadic interface parameter exists, so the call has at least one argument (a variadic parameter has slice type and is not matched)"},
+}
+
+// c07VarIndices: variable indices whose bound is not a dominating fact of the same function.
+var c07VarIndices = map[string]string{
+	"goose.Ctx.Decls$1|*fs[id.fileIdx]":                                                         "every declId is built from the indices of the range loops over fs and f.Ast.Decls in Decls (the only constructor sites), so fileIdx < len(fs)",
+	"goose.Ctx.multipleAssignStmt|s.Lhs[(phi:rangeindex + 1)]":                                  "the loop ranges over names, made with length len(s.Lhs)",
+	"goose.Ctx.multipleAssignStmt|make([]Binding,(len(s.Lhs) + 1))[((phi:rangeindex + 1) + 1)]": "the loop ranges over names (length len(s.Lhs)); the slice was made with length len(s.Lhs)+1",
+	"goose.TranslationConfig.TranslatePackages$1|*files[i]":                                     "i is the index of the range loop over pkgs; files was made with length len(pkgs)",
+	"goose.TranslationConfig.TranslatePackages$1|*errs[i]":                                      "i is the index of the range loop over pkgs; errs was made with length len(pkgs)",
+	"goose.sortedFiles|fileAsts[(phi:rangeindex + 1)]":                                          "the loop ranges over fileNames and the function panics first unless len(fileNames) == len(fileAsts)",
+	"goose.sortedFiles$1|*flatFiles[i]":                                                         "less function of sort.Slice: called with indices inside the sorted slice",
+	"goose.sortedFiles$1|*flatFiles[j]":                                                         "less function of sort.Slice: called with indices inside the sorted slice",
+}
+
+// c07Slices: slice expressions whose bounds are justified by a caller-side protocol.
+var c07Slices = map[string]string{
+	"*goose.cursor.Next|c.Stmts[1:]": "documented precondition HasNext(): the only caller (stmts) calls Next inside `for c.HasNext()`",
 }
 
 var c07Helpers = map[string]string{
@@ -484,6 +500,23 @@ func c07Audit(p *Prog, r *Report, prefixed *ssa.Function) {
 					}
 					k, ok := constInt(x.Index)
 					if !ok {
+						// variable index: bounded by the length of the slice it indexes
+						r.Sites++
+						ik, sk0 := sk(x.Index), sk(x.X)
+						key := fmt.Sprintf("%s|%s[%s]", FuncName(f), sk0, ik)
+						rs := at(in)
+						switch {
+						case rs[ik+" < len("+sk0+")"]:
+							r.OK("R07b", "varindex "+key, instrPos(in), "dominated by the fact index < len(slice)")
+						case ik == "(len("+sk0+") - 1)" && (rs["0 != len("+sk0+")"] || rs["0 < len("+sk0+")"] || strings.HasPrefix(sk0, "strings.Split(")):
+							r.OK("R07b", "varindex "+key, instrPos(in), "last element of a slice known to be non-empty (length test, or strings.Split, which returns at least one element)")
+						default:
+							if why, ok := auditFind(c07VarIndices, key); ok {
+								r.OK("R07b", "varindex "+key, instrPos(in), "audited: "+why)
+							} else {
+								r.Unknown("R07b", "varindex "+key, instrPos(in), fmt.Sprintf("variable index without the fact %s < len(%s) and without an audited bound (facts: %v)", ik, sk0, relList(rs)))
+							}
+						}
 						return
 					}
 					// varargs / composite-literal arrays are IndexAddr on *array, not slices: skipped above
@@ -498,6 +531,33 @@ func c07Audit(p *Prog, r *Report, prefixed *ssa.Function) {
 						r.OK("R07b", "index "+key, instrPos(in), "audited: "+g.Why)
 					} else {
 						r.Unknown("R07b", "index "+key, instrPos(in), fmt.Sprintf("constant index %d without a dominating length bound (facts: %v) and without an audited arity invariant", k, relList(rs)))
+					}
+				case *ssa.Slice:
+					// x[lo:hi] with explicit bounds on a slice or string panics when the bounds exceed the length
+					if x.Low == nil && x.High == nil {
+						return
+					}
+					if _, isArr := deref(x.X.Type()).Underlying().(*types.Array); isArr {
+						return // slicing a local array literal (make/append idiom)
+					}
+					r.Sites++
+					key := fmt.Sprintf("%s|%s", FuncName(f), sk(x))
+					rs := at(in)
+					lo := ""
+					if x.Low != nil {
+						lo = sk(x.Low)
+					}
+					switch {
+					case x.High == nil && lo == "1" && (rs["0 != len("+sk(x.X)+")"] || rs["0 < len("+sk(x.X)+")"]):
+						r.OK("R07b", "slice "+key, instrPos(in), "x[1:] under the fact that x is non-empty")
+					case x.High == nil && strings.HasPrefix(lo, "(strings.LastIndex("+sk(x.X)+",") && strings.HasSuffix(lo, " + 1)"):
+						r.OK("R07b", "slice "+key, instrPos(in), "strings.LastIndex(s, …)+1 lies in 0..len(s)")
+					default:
+						if why, ok := auditFind(c07Slices, key); ok {
+							r.OK("R07b", "slice "+key, instrPos(in), "audited: "+why)
+						} else {
+							r.Unknown("R07b", "slice "+key, instrPos(in), fmt.Sprintf("slice expression with explicit bounds and no recognised bound argument (facts: %v)", relList(rs)))
+						}
 					}
 				case *ssa.Call:
 					cal := calleeOf(&x.Call)
@@ -514,6 +574,58 @@ func c07Audit(p *Prog, r *Report, prefixed *ssa.Function) {
 							r.OK("R07b", "partial "+key, instrPos(in), g)
 						} else {
 							r.Unknown("R07b", "partial "+key, instrPos(in), "call of a partial helper (panics with a plain error on the wrong kind of type) without a dominating type test and without an audited invariant")
+						}
+					}
+					// accessors of go/types that are documented to return nil: a method called on the result dereferences it
+					if why, ok := nilReturningAccessors[calleeName(x)]; ok {
+						for _, rf := range refs(x) {
+							c2, ok := rf.(*ssa.Call)
+							if !ok || len(c2.Call.Args) == 0 || c2.Call.Args[0] != ssa.Value(x) || c2.Call.IsInvoke() {
+								continue
+							}
+							cal2 := c2.Call.StaticCallee()
+							if cal2 == nil || cal2.Signature.Recv() == nil {
+								continue
+							}
+							r.Sites++
+							key := fmt.Sprintf("%s|%s.%s()", FuncName(f), sk(x), cal2.Name())
+							rs := at(c2)
+							if rs[eqRel("nil", sk(x))] == false && (rs["nil != "+sk(x)] || rs[sk(x)+" != nil"]) {
+								r.OK("R07b", "nilresult "+key, instrPos(c2), "dominated by a nil test of the accessor's result")
+							} else {
+								r.Unknown("R07b", "nilresult "+key, instrPos(c2), "the result of "+calleeName(x)+" is "+why+"; a method is called on it without a nil test")
+							}
+						}
+					}
+					// partial accessors of go/constant: StringVal, Uint64Val, … panic on a value of another kind
+					if cal != nil && cal.Pkg != nil && cal.Pkg.Pkg.Path() == "go/constant" && len(x.Call.Args) >= 1 {
+						if need, ok := constantAccessorKind[cal.Name()]; ok {
+							r.Sites++
+							ak := sk(x.Call.Args[0])
+							key := fmt.Sprintf("%s|constant.%s(%s)", FuncName(f), cal.Name(), ak)
+							rs := at(in)
+							okKind := false
+							for _, k := range need {
+								if rs[eqRel(itoa(k), ak+".Kind()")] {
+									okKind = true
+								}
+							}
+							lit := ""
+							if i := strings.Index(ak, ".Types["); cal.Name() == "StringVal" && i >= 0 && strings.HasSuffix(ak, "].Value") {
+								// the value recorded by go/types for a STRING literal is a String constant
+								e := ak[i+len(".Types[") : len(ak)-len("].Value")]
+								if rs[eqRel(itoa(int(token.STRING)), e+".Kind")] {
+									lit = e
+								}
+							}
+							switch {
+							case okKind:
+								r.OK("R07b", "constant "+key, instrPos(in), "dominated by a test of the constant's kind")
+							case lit != "":
+								r.OK("R07b", "constant "+key, instrPos(in), "go/types: the constant value recorded for the STRING literal "+lit+" is a String")
+							default:
+								r.Unknown("R07b", "constant "+key, instrPos(in), fmt.Sprintf("constant.%s panics unless the value's kind is one of %v; no dominating kind test (an INT literal used at a floating-point type has a Float value) (facts: %v)", cal.Name(), need, relList(rs)))
+							}
 						}
 					}
 					// (*types.Package).Path/Name/Scope on a possibly-nil package
@@ -537,6 +649,24 @@ func c07Audit(p *Prog, r *Report, prefixed *ssa.Function) {
 			})
 		}
 	}
+}
+
+// nilReturningAccessors: go/types accessors whose documentation says they may return nil.
+var nilReturningAccessors = map[string]string{
+	"(*go/types.Func).Scope":      "nil for imported or instantiated functions",
+	"(*go/types.Signature).Recv":  "nil for functions that are not methods",
+	"(*go/types.Scope).Lookup":    "nil if the name is not declared in the scope",
+	"(*go/types.Scope).Parent":    "nil for the universe scope",
+	"(*go/types.Scope).Innermost": "nil if the position is outside the scope",
+	"(*go/types.Info).ObjectOf":   "nil if the identifier is not found",
+	"(*go/types.Info).TypeOf":     "nil if the expression is not found",
+	"(*go/types.TypeName).Pkg":    "nil for predeclared types",
+}
+
+// constantAccessorKind: go/constant accessors that panic on other kinds (Unknown, 0, is always accepted).
+var constantAccessorKind = map[string][]int{
+	"BoolVal": {1}, "StringVal": {2}, "Int64Val": {3}, "Uint64Val": {3}, "Float32Val": {3, 4}, "Float64Val": {3, 4},
+	"BitLen": {3}, "Bytes": {3}, "Num": {3, 4}, "Denom": {3, 4},
 }
 
 // astMinLen: slices of go/ast nodes that the Go grammar guarantees to be non-empty.
